@@ -60,20 +60,37 @@ def notSelected (defs : List (Def K)) (sel : String → Bool) (i : Instr K) : Bo
   | .ok none => true
   | _ => false
 
-/-- **Bool checker for `MapOK`** (needs decidable equality of instructions). -/
+/-- one entry against its source instruction and exactly its slice `chunk` of the output -/
+inductive EntryOK (defs : List (Def K)) (sel : String → Bool) :
+    Entry → Nat → Nat → Instr K → List (Instr K) → Prop
+  | unmodified {k off i} : ¬ IsSelectedInvocation defs sel i →
+      EntryOK defs sel (.unmodified k off) k off i [i]
+  | rewritten {k off g d body b nm} :
+      Selected defs sel g d → g.mods = [] → Instantiates d g body →
+      MapOK defs sel 0 0 (body.map Instr.gate) b nm →
+      EntryOK defs sel (.rewritten k d.name off (off + b.length) nm) k off (.gate g) b
+
+mutual
+/-- **Bool checker**, one entry: `chunk` is the slice of the output the entry's range denotes. -/
+def checkEntry [DecidableEq K] (defs : List (Def K)) (sel : String → Bool) :
+    Entry → Nat → Nat → Instr K → List (Instr K) → Bool
+  | .unmodified s idx, k, off, i, chunk =>
+    s == k && idx == off && notSelected defs sel i && decide (chunk = [i])
+  | .rewritten s name start stop nested, k, off, i, chunk =>
+    s == k && start == off && stop == start + chunk.length &&
+      (match unfold? defs sel i with
+        | some (body, nm) => nm == name && checkMap defs sel nested 0 0 body chunk
+        | none => false)
+/-- **Bool checker for `MapOK`** (needs decidable equality of instructions): walks the map, cutting the
+output into the slices the entries' ranges denote; structural recursion on the map tree. -/
 def checkMap [DecidableEq K] (defs : List (Def K)) (sel : String → Bool) :
     List Entry → Nat → Nat → List (Instr K) → List (Instr K) → Bool
   | [], _, _, [], [] => true
-  | .unmodified s idx :: m, k, off, i :: rest, o :: out =>
-    s == k && idx == off && notSelected defs sel i && decide (o = i) &&
-      checkMap defs sel m (k + 1) (off + 1) rest out
-  | .rewritten s name start stop nested :: m, k, off, i :: rest, out =>
-    s == k && start == off && start ≤ stop && stop - start ≤ out.length &&
-      (match unfold? defs sel i with
-        | some (body, nm) =>
-          nm == name && checkMap defs sel nested 0 0 body (out.take (stop - start)) &&
-            checkMap defs sel m (k + 1) stop rest (out.drop (stop - start))
-        | none => false)
+  | e :: m, k, off, i :: rest, out =>
+    e.lo ≤ e.hi && e.hi - e.lo ≤ out.length &&
+      checkEntry defs sel e k off i (out.take (e.hi - e.lo)) &&
+      checkMap defs sel m (k + 1) (off + (e.hi - e.lo)) rest (out.drop (e.hi - e.lo))
   | _, _, _, _, _ => false
+end
 
 end QV.C21
